@@ -285,3 +285,16 @@ Section Mirror.
     - f_equal. exact R.
   Qed.
 End Mirror.
+
+(* latin-1 text-mode file: the text is the byte list *)
+Theorem jsonl_latin1 {obj} (loads_text : text -> option obj) :
+  (forall s, loads_text (s ++ [LF]) = loads_text s) ->
+  forall c ie, no_lone_cr c = true ->
+  jsonl_iter loads_text TextLatin1 ie false c = Ok (jsonl_forward_spec loads_text is_ws_str ie c) /\
+  jsonl_iter loads_text TextLatin1 ie true c = Ok (jsonl_reverse_spec loads_text is_ws_str ie c).
+Proof.
+  intros L c ie H. split; cbn [jsonl_iter].
+  - f_equal. apply (forward_text loads_text is_ws_str eq_refl L ie c H).
+  - rewrite reverse_latin1_spec; [|unfold jsonl_blocksize; lia|exact H].
+    rewrite next_all_eq. reflexivity.
+Qed.
